@@ -152,14 +152,13 @@ def stepConv (cx : Ctx) (rc : Recv) (op : String) (args : List String) : Option 
     let k ← nat? k
     pure { cx.ofTD TD.default with toks := [fmtList (data.take k)], drops := cx.dr data }
   | "to_owned", [] =>
-    -- `From<TooDeeView>` / `From<TooDeeViewMut>` src/toodee.rs: clone row by row
-    let r : Res (List Nat) := do
-      let rows ← rc.rows m
-      let ws ← rows.collect (rows.v.len + 2)
-      pure (ws.map (readWin data)).flatten
-    match r with
-    | .ok l => pure { cx.same with toks := [toString rc.numCols, toString rc.numRows, fmtList l], drops := cx.dr l }
-    | .error e => pure (cx.fail e)
+    -- `From<TooDeeView>` / `From<TooDeeViewMut>` (`VW.toOwned`)
+    match rc with
+    | .vmut v | .vsh v =>
+      match v.toOwned m data with
+      | .ok t' => pure { cx.same with toks := [toString t'.numCols, toString t'.numRows, fmtList t'.data], drops := cx.dr t'.data }
+      | .error e => pure (cx.fail e)
+    | _ => pure cx.badOp
   | "clone", [] =>
     pure { cx.same with toks := [toString t.numCols, toString t.numRows, fmtList data, "eq=1", "hasheq=1", "indep=1"],
                          drops := cx.dr (data.map fun v => if cx.elem = .zst then 0 else v + 1) }
